@@ -15,8 +15,6 @@ Definition out_eqb (o : outcome) (e : eout) : bool :=
   match o, e with
   | Return r, EReturn r' => zlist_eqb r r'
   | ReturnUnit, EUnit => true
-  | ReturnNone, ENone => true
-  | ReturnNone, EUnit => true   (* with return_results=False both are a bare None *)
   | PoolErr p, EPoolErr p' => zlist_eqb p p'
   | Internal EIndex, EInternal => true
   | Livelock, ELivelock => true
